@@ -70,8 +70,15 @@ fn fails_single(o: &RObj) -> bool {
     !roundtrip_diffs(&single(o), false).is_empty()
 }
 
+/// Minimisation is costly (hundreds of save/load round trips per object). On a tree that fails thousands of cases
+/// only the first findings of a run are minimised; the rest are reported with the object as generated.
+static MINIMISATIONS_LEFT: std::sync::atomic::AtomicIsize = std::sync::atomic::AtomicIsize::new(64);
+
 /// smallest failing sub-object (object-level delta debugging)
 pub fn minimise_obj(o: &RObj) -> RObj {
+    if MINIMISATIONS_LEFT.fetch_sub(1, std::sync::atomic::Ordering::Relaxed) <= 0 {
+        return o.clone();
+    }
     let mut cur = o.clone();
     'outer: loop {
         let children: Vec<RObj> = match &cur {
@@ -85,6 +92,10 @@ pub fn minimise_obj(o: &RObj) -> RObj {
             _ => vec![],
         };
         for c in children {
+            // (a candidate has to be smaller than what it replaces: `<</K null>>` is its own child)
+            if robj_eq(&c, &cur) {
+                continue;
+            }
             if fails_single(&c) {
                 cur = c;
                 continue 'outer;
